@@ -5,7 +5,7 @@ from rules import anchors, common
 
 CLAIMED = True
 TECHNIQUE = "static analysis over type-checked MIR: CFG reachability from the Response switch arms (chain interpreter), loop-exit analysis for error isolation, single handler site per error, comparison normal form of the threshold filter"
-LEVEL_TEXT = """Static, all-paths decision of: (F1) the chain interpreter in the per-appender delivery function: from the switch on Filter::filter's Response the Accept arm reaches Append::append without another filter call, the Reject arm cannot reach Append::append and returns Ok, the Neutral arm returns to the iterator step, exhaustion reaches Append::append; (F2) filters are iterated forward over the stored vector and builders append in call order; (F3) in the node's delivery loop the only loop exit is iterator exhaustion and the Err arm records the error and continues; (F4) Log::log calls the error handler at exactly one site, once per item of the returned error vector; (F5) ThresholdFilter::filter returns Reject exactly on record_level > threshold and Neutral otherwise (never Accept). User-supplied filters/appenders are not decided. (F2, cont.) no call anywhere in the crate sorts, reverses, removes from or otherwise reorders a list of filters in place. (F9) the handler comes from the snapshot that made the delivery (C15.A1); (F10) build_lossy never pairs one definition's sink with another's filters (C13.V9)."""
+LEVEL_TEXT = """Static, all-paths decision of: (F1) the chain interpreter in the per-appender delivery function: from the switch on Filter::filter's Response the Accept arm reaches Append::append without another filter call, the Reject arm cannot reach Append::append and returns Ok, the Neutral arm returns to the iterator step, exhaustion reaches Append::append; (F2) filters are iterated forward over the stored vector and builders append in call order; (F3) in the node's delivery loop the only loop exit is iterator exhaustion and the Err arm records the error and continues; (F4) Log::log calls the error handler at exactly one site, once per item of the returned error vector; (F5) ThresholdFilter::filter returns Reject exactly on record_level > threshold and Neutral otherwise (never Accept). User-supplied filters/appenders are not decided. (F2, cont.) no call anywhere in the crate sorts, reverses, removes from or otherwise reorders a list of filters in place. (F9) the handler comes from the snapshot that made the delivery (C15.A1); (F10) build_lossy never pairs one definition's sink with another's filters (C13.V9). (F11) a section's filters are read as one sequence (C14.K16)."""
 LEVEL_NOTE = "Trusted: rustc MIR/callee resolution; Vec/slice iterators yield elements in order. Decides the interpreter's control-flow shape for every chain at once; behaviour of user components is outside."
 EXPLANATION = """Decided: F1 chain interpreter arms, F2 declaration order, F3 error isolation, F4 once per error, F5 threshold comparator. Undecided: behaviour of user-supplied Filter/Append implementations."""
 DECIDED = ["F1 Accept/Reject/Neutral arms", "F2 forward iteration, push order", "F3 loop exits only by exhaustion", "F4 one handler call per error", "F5 record_level > threshold => Reject else Neutral", "F6 a fresh filter list per appender in the lossy loader", "F7 a log::Log used as an appender is handed every admitted record"]
@@ -87,18 +87,10 @@ def rule_log_adapter(ctx, p, cfg, rid="F7"):
         r.require(bool(rets) and all(q.classify_ret(e) == "ok" for b, e in rets), "reports-ok", fn=f, detail="returns Ok(())")
 
 
-def run_cfg(ctx, p, cfg):
-    rule_log_adapter(ctx, p, cfg, "F7")
-    from rules import c01
-    from rules import c15
-    c15.rule_one_snapshot(ctx, p, cfg, "F9")   # "handed to the configured error handler": the handler belongs to the snapshot that made the delivery, not to a later load (C15.A1 re-evaluated)
-    from rules import c13
-    c13.rule_kept_as_given(ctx, p, cfg, "F10")   # "its own filter chain": the lossy build never pairs one definition's sink with another's filters (C13.V9 re-evaluated)
-    c01.rule_index_table(ctx, p, cfg, "F8")   # "decided per appender by its own chain": the position a logger holds names the appender it was attached to (C01.R8 re-evaluated)
-    if "config_parsing" in p.meta.get("features", []):
-        from rules import c14
-        c14.rule_filters_per_appender(ctx, p, cfg, "F6")   # one appender's (failed) declaration cannot put filters in front of another
-    with ctx.rule("F1", "chain interpreter", cfg) as r:
+def rule_chain_interpreter(ctx, p, cfg, rid="F1"):
+    """Appender::append: the filters decide, in order, and nothing else does - Reject returns without the sink, Accept and an all-Neutral
+    chain reach `self.appender.append(record)` on every path"""
+    with ctx.rule(rid, "chain interpreter", cfg) as r:
         ro = anchors.routing(p)
         d = ro["deliver"]
         fc = d.call1(FILTER, "Filter::filter")
@@ -196,6 +188,21 @@ def run_cfg(ctx, p, cfg):
         ret = d.local_expr(0)
         r.require(any(x[0] == "call" and x[1] == APPEND for x in walk(ret)), "appender-result-returned", fn=d,
                   detail="the appender's own Result is returned: %s" % show(ret, 4))
+
+
+def run_cfg(ctx, p, cfg):
+    rule_log_adapter(ctx, p, cfg, "F7")
+    from rules import c01
+    from rules import c15
+    c15.rule_one_snapshot(ctx, p, cfg, "F9")   # "handed to the configured error handler": the handler belongs to the snapshot that made the delivery, not to a later load (C15.A1 re-evaluated)
+    from rules import c13
+    c13.rule_kept_as_given(ctx, p, cfg, "F10")   # "its own filter chain": the lossy build never pairs one definition's sink with another's filters (C13.V9 re-evaluated)
+    c01.rule_index_table(ctx, p, cfg, "F8")   # "decided per appender by its own chain": the position a logger holds names the appender it was attached to (C01.R8 re-evaluated)
+    if "config_parsing" in p.meta.get("features", []):
+        from rules import c14
+        c14.rule_filters_per_appender(ctx, p, cfg, "F6")
+        c14.rule_filters_section_whole(ctx, p, cfg, "F11")   # declaration order starts in the document (C14.K16 re-evaluated)   # one appender's (failed) declaration cannot put filters in front of another
+    rule_chain_interpreter(ctx, p, cfg, "F1")
 
     with ctx.rule("F2", "declaration order", cfg) as r:
         ro = anchors.routing(p)
